@@ -604,7 +604,7 @@ def run(pid, tier, replay_file=None):
     adj = dict(events=0, tlc_states=0)
     if events:
         try:
-            rejected, adj = df.adjudicate(events, parallel=12)
+            rejected, adj = df.adjudicate(events, parallel=8)
         except ValueError as exc:
             raise MachineryError(f"cannot encode an observation for TLC: {exc}")
         for eid in sorted(rejected):
